@@ -92,19 +92,25 @@ theorem sim_frame {cfg : Cfg} {r : Run} {n : N} (h : Sim cfg r n) (s' : State) (
   ⟨by rw [hn]; exact h.now, by rw [hl]; exact h.last, by rw [hr]; exact h.uniq, by rw [hr]; exact h.copies,
    by intro c; simp only [Run.notified, ho]; exact h.reported c⟩
 
-theorem ingest_frame (cfg : Cfg) (s : State) (c : String) (e : Int) :
-    (ingest cfg s c e).now = s.now ∧ (ingest cfg s c e).lastCleanup = s.lastCleanup ∧
-    (ingest cfg s c e).recs = s.recs ∧ (ingest cfg s c e).notes = s.notes := by
-  unfold ingest; split <;> simp [acceptManifest]
+theorem ingest_frame (cfg : Cfg) (s : State) (c : String) (e : Int) (same : Bool) :
+    (ingest cfg s c e same).now = s.now ∧ (ingest cfg s c e same).lastCleanup = s.lastCleanup ∧
+    (ingest cfg s c e same).recs = s.recs ∧ (ingest cfg s c e same).notes = s.notes := by
+  unfold ingest
+  split
+  · simp
+  · split <;> simp [acceptManifest]
 
-theorem announce_frame (cfg : Cfg) (s : State) (c : String) (e : Int) (p : String) (pid : Routing.Id) (addr : String)
-    (ttl : Int) (hint : Option (List String)) :
-    (announce cfg s c e p pid addr ttl hint).now = s.now ∧ (announce cfg s c e p pid addr ttl hint).lastCleanup = s.lastCleanup ∧
-    (announce cfg s c e p pid addr ttl hint).recs = s.recs ∧ (announce cfg s c e p pid addr ttl hint).notes = s.notes := by
+theorem announce_frame (cfg : Cfg) (s : State) (c : String) (e : Int) (same : Bool) (p : String) (pid : Routing.Id)
+    (addr : String) (ttl : Int) (hint : Option (List String)) :
+    (announce cfg s c e same p pid addr ttl hint).now = s.now ∧
+    (announce cfg s c e same p pid addr ttl hint).lastCleanup = s.lastCleanup ∧
+    (announce cfg s c e same p pid addr ttl hint).recs = s.recs ∧
+    (announce cfg s c e same p pid addr ttl hint).notes = s.notes := by
   unfold announce
   split
   · simp
-  · simp only; split <;> simp [acceptManifest]
+  · simp only
+    split <;> split <;> simp [acceptManifest]
 
 theorem reannounce_frame (cfg : Cfg) (s : State) (c : String) (ttl : Int) (hint : Option (List String)) :
     (reannounce cfg s c ttl hint).now = s.now ∧ (reannounce cfg s c ttl hint).lastCleanup = s.lastCleanup ∧
@@ -148,11 +154,11 @@ theorem sim_step {cfg : Cfg} (hs : ChunkStore.SaneCfg cfg.node) {r : Run} {n : N
     · have hk' : ¬ k = c := fun hh => hk hh.symm
       simp only [hk, hk', if_false]
       exact h.copies k
-  | ingest c e =>
-    obtain ⟨a, b, c', d⟩ := ingest_frame cfg r.s c e
+  | ingest c e same =>
+    obtain ⟨a, b, c', d⟩ := ingest_frame cfg r.s c e same
     exact sim_frame h _ a b c' d
-  | announce c e p pid addr ttl hint =>
-    obtain ⟨a, b, c', d⟩ := announce_frame cfg r.s c e p pid addr ttl hint
+  | announce c e same p pid addr ttl hint =>
+    obtain ⟨a, b, c', d⟩ := announce_frame cfg r.s c e same p pid addr ttl hint
     exact sim_frame h _ a b c' d
   | reannounce c ttl hint =>
     obtain ⟨a, b, c', d⟩ := reannounce_frame cfg r.s c ttl hint
